@@ -242,6 +242,9 @@ fn setmax_child(v: u64, via: &str) {
     let d = match via {
         "layer" => tracing_core::Dispatch::new(tracing_subscriber::registry().with(filter(v))),
         "fmt" => tracing_core::Dispatch::new(tracing_subscriber::fmt().with_max_level(filter(v)).with_writer(std::io::sink).finish()),
+        // the collector behind the provided wrappers (their own forwarding of max_level_hint)
+        "arc" => tracing_core::Dispatch::new(std::sync::Arc::new(Hinted(Some(filter(v))))),
+        "box" => tracing_core::Dispatch::new(Box::new(Hinted(Some(filter(v)))) as Box<dyn Collect + Send + Sync>),
         _ => tracing_core::Dispatch::new(Hinted(Some(filter(v)))),
     };
     let after = rank_of_filter(&LevelFilter::current());
@@ -265,11 +268,25 @@ fn setmax2_child(w: u64, v: u64) {
     println!("{} {} {}", before, after, if mid == w { after2 } else { 77 });
 }
 
+/// child process: two collectors alive at once (9 = no hint); what the global maximum reads afterwards
+fn setmaxlive_child(w: u64, v: u64) {
+    let h = |x: u64| if x == 9 { None } else { Some(filter(x)) };
+    let before = rank_of_filter(&LevelFilter::current());
+    let d1 = tracing_core::Dispatch::new(Hinted(h(w)));
+    let d2 = tracing_core::Dispatch::new(Hinted(h(v)));
+    let after = rank_of_filter(&LevelFilter::current());
+    let after2 = rank_of_filter(&tracing::level_filters::LevelFilter::current());
+    drop((d1, d2));
+    println!("{} {} {}", before, after, after2);
+}
+
 fn eval_setmax(c: &Value) -> Value {
     let v = c["v"].as_u64().unwrap();
     let exe = std::env::current_exe().unwrap();
     let mut cmd = std::process::Command::new(exe);
-    if c["k"] == "setmax2" {
+    if c["k"] == "setmaxlive" {
+        cmd.arg("setmaxlive").arg(c["w"].as_u64().unwrap().to_string()).arg(v.to_string());
+    } else if c["k"] == "setmax2" {
         cmd.arg("setmax2").arg(c["w"].as_u64().unwrap().to_string()).arg(v.to_string());
     } else {
         cmd.arg("setmax").arg(v.to_string()).arg(c["via"].as_str().unwrap_or("collector"));
@@ -292,6 +309,10 @@ fn main() {
         setmax_child(args[2].parse().unwrap(), &args[3]);
         return;
     }
+    if args.len() == 4 && args[1] == "setmaxlive" {
+        setmaxlive_child(args[2].parse().unwrap(), args[3].parse().unwrap());
+        return;
+    }
     if args.len() == 4 && args[1] == "setmax2" {
         setmax2_child(args[2].parse().unwrap(), args[3].parse().unwrap());
         return;
@@ -305,7 +326,7 @@ fn main() {
             "parse" => eval_parse(c),
             "print" => eval_print(c),
             "conv" => eval_conv(c),
-            "setmax" | "setmax2" => eval_setmax(c),
+            "setmax" | "setmax2" | "setmaxlive" => eval_setmax(c),
             "layer" => eval_layer(c),
             k => panic!("kind {k}"),
         })
